@@ -26,8 +26,8 @@ def prepare(tier, seed):
 
 
 def ent(e):
-    return "{| n_cmd := %s; n_desc := %s; n_keys := %s; n_niche := %s; n_platforms := %s; n_pipeline := %s |}" % (
-        core.cbytes(bytes(e.get("cmd") or [])), core.cbytes(bytes(e.get("desc") or [])), ec.cbl(e.get("keys")), core.cbytes(bytes(e.get("niche") or [])),
+    return "{| n_cmd := %s; n_desc := %s; n_keys := %s; n_tags := %s; n_niche := %s; n_platforms := %s; n_pipeline := %s |}" % (
+        core.cbytes(bytes(e.get("cmd") or [])), core.cbytes(bytes(e.get("desc") or [])), ec.cbl(e.get("keys")), ec.cbl(e.get("tags")), core.cbytes(bytes(e.get("niche") or [])),
         ec.cbl(e.get("platforms")), core.cbool(e.get("pipeline", False)))
 
 
